@@ -174,7 +174,7 @@ var (
 	strStyles  = []string{"string", "MyStr"}
 	boolStyles = []string{"bool", "MyBool"}
 	arrStyles  = []string{"[]any", "[]T", "[n]any", "[n]T", "MySlice"}
-	objStyles  = []string{"map[string]any", "map[string]T", "map[MyKey]any", "MyMap", "map[MyKey]T"}
+	objStyles  = []string{"map[string]any", "map[string]T", "map[MyKey]any", "MyMap", "map[MyKey]T", "map[json.Number]any"}
 	wrapStyles = []string{"", "*", "**", "*any"} // "*any": a pointer to an interface that holds the value
 )
 
@@ -319,6 +319,10 @@ func build(v *ref.Val, ch []nodeChoice, idx *int) (reflect.Value, bool) {
 			out = reflect.MakeMap(reflect.MapOf(kt, et))
 		case 3:
 			out = reflect.MakeMap(reflect.TypeOf(MyMap(nil)))
+		case 5:
+			// a string-kind key type that is also the library's carrier of numbers: keys stay strings
+			kt = reflect.TypeOf(json.Number(""))
+			out = reflect.MakeMap(reflect.MapOf(kt, et))
 		default:
 			return out, false
 		}
